@@ -65,6 +65,8 @@ type Registration struct {
 	GlobalsRead    []string `json:"globals_read"`
 	GlobalsWritten []string `json:"globals_written"`
 	Reach          []string `json:"reach"`
+	SigContent     bool     `json:"reads_signature_content"`
+	ObjAppends     []string `json:"obj_appends"`
 	ctorPos token.Pos
 	// F11
 	LoopStatuses map[string][]int `json:"loop_statuses,omitempty"`
